@@ -71,6 +71,10 @@ def check_loaded(chk, case, res, info):
     c = info["control"]
     want = {"Package": hx(c[b"Package"]), "Maintainer": hx(c[b"Maintainer"]), "Section": hx(c.get(b"Section", b"")),
             "InstalledSize": c.get(b"Installed-Size", b"0").decode()}
+    if b"Description" in c:
+        # the field's logical lines: continuation marker removed, " ." an empty line, indentation kept, one newline per continuation line
+        ls = c[b"Description"].split(b"\n ")
+        want["Description"] = hx(ls[0] if len(ls) == 1 else ls[0] + b"\n" + b"".join((b"" if l == b"." else l) + b"\n" for l in ls[1:]))
     for k, v in want.items():
         if got.get(k) != v:
             chk.violate({"kind": "property", "case": lib.show_case(("debload", [b"<%d bytes>" % len(case[1][0])])), "field": k, "impl": str(got.get(k)), "expected": v,
@@ -162,11 +166,11 @@ def run(chk):
                 fl = None
             t = istar[m["name"]]
             listing = "-" if t != "T" else show_list(["x%s:%d" % (n.hex(), len(d)) for n, d in fl]) if fl is not None else "?"
-            items.append("( x%s %d %s %s )" % (m["name"].hex(), len(m["data"]), t, listing))
+            items.append("( x%s %d %s %s %d:%08x )" % (m["name"].hex(), len(m["data"]), t, listing, len(m["data"]), zlib.crc32(m["data"]) & 0xffffffff))
         want = "ok " + show_list(items)
         if got != want:
             chk.violate({"kind": "property", "case": lib.show_case(("debentries", [b"<%d bytes>" % len(c[1][0])])), "impl": got[:900], "expected": want[:900],
-                         "explanation": "the member index of a loaded package does not list the members with their sizes, or a member's IsTarfile / Tarfile() does not expose the packaged files"})
+                         "explanation": "the member index of a loaded package does not list the members with their sizes, or a member's IsTarfile / Tarfile() does not expose the packaged files, or an entry's reader does not deliver the member's bytes"})
     # the xz dictionary limit is process-wide state with a documented reset (SetXZMaxDict(0) = the default): after a limit was
     # set and reset, packages with xz members (8 MiB dictionaries, what xz and dpkg-deb write by default) load as before
     xz = [(b, r) for (b, info), r in zip(pkgs, impl) if info is not None and (info["cext"] == b"tar.xz" or info["dext"] == b"tar.xz")][:chk.n(12, 120)]
@@ -330,6 +334,18 @@ def hostile_debs(chk):
             chk.violate({"kind": "property", "case": lib.show_case(c), "impl": a, "explanation": "loading a corrupted .deb did not finish normally"})
         elif a != b:
             chk.violate({"kind": "property", "case": lib.show_case(c), "first": a[:300], "again": b[:300], "explanation": "loading the same bytes twice gives different outcomes"})
+    # C15: "every member that is returned ... has a non-negative size, and its reader delivers exactly that many bytes" - for the
+    # members a successfully LOADED package returns in its index, whatever the archive looked like
+    lc = [("debentries", [c[1][0]]) for c, r in zip(cases, first) if r.startswith("ok ")]
+    li = chk.run_impl(lc)
+    chk.record("loaded-hostile-debs-member-readers", lc, li)
+    import re as _re
+    for c, r in zip(lc, li):
+        for name, size, rd in _re.findall(r"\( x([0-9a-f]*) (-?\d+) [TF] (?:-|open-error|\[(?: [^\]]*)?\]) (\S+) \)", r):
+            if int(size) < 0 or not rd.startswith("%d:" % int(size)):
+                chk.violate({"kind": "property", "case": lib.show_case(("debentries", [b"<%d bytes>" % len(c[1][0])])), "member": bytes.fromhex(name).decode("latin1"),
+                             "size": int(size), "read": rd, "explanation": "a member returned in the index of a loaded package has a negative size or a reader that does not deliver exactly Size bytes"})
+                break
     # members that share the control. / data. prefix without being tarballs (control.sig, data.tar.gz.bak, ...): which
     # member the loader meets first depends on Go's map order, so each package is loaded many times - the outcome
     # must be the same every time (that such a package must be refused is C16's business, checked there)
